@@ -110,10 +110,12 @@ impl ContainsPoint for Triangle {
 
                 // This check allows this algorithm to work with clockwise or counterclockwise
                 // triangles.
+                // `s` and `t` can have different signs here if one of them is zero, so both are
+                // checked.
                 if a < 0 {
-                    s <= 0 && s + t >= a
+                    s <= 0 && t <= 0 && s + t >= a
                 } else {
-                    s >= 0 && s + t <= a
+                    s >= 0 && t >= 0 && s + t <= a
                 }
             }
         };
